@@ -139,7 +139,82 @@ func oneTrace(b *centrifuge.MemoryMapBroker, rec *recorder, reg *registry, res *
 		return map[string]any{"ev": name, "args": a, "bc": bc,
 			"res": map[string]any{"err": got.Err != "", "sup": got.Sup, "off": got.Off, "ep": ep.number(got.Ep), "cur": cur}}
 	}
+	pubEv := func(a map[string]any) updRes {
+		t0 := time.Now().UnixMilli()
+		got := doPublish(b, ch, a, ep, tick)
+		t1 := time.Now().UnixMilli()
+		h := takeBc()
+		if got.Err == "" && (got.Sup == "" || (got.Sup == "key_exists" && vh.Str(a["km"]) == "if_new_refresh")) {
+			refreshes = append(refreshes, opTime{vh.Str(a["key"]), t0, t1})
+		}
+		id := vh.Int(a["id"])
+		evs = append(evs, updEv("Publish", a, got, ownBc(h, func(x bcast) bool { return !x.Rm && x.ID == id })))
+		time.Sleep(1200 * time.Microsecond)
+		return got
+	}
+	remEv := func(a map[string]any) updRes {
+		got := doRemove(b, ch, a, ep, tick)
+		h := takeBc()
+		applied := got.Err == "" && got.Sup == ""
+		var mine []map[string]any
+		if applied {
+			// the removal this call produced: by its offset on stream-backed channels, else the last removal of the key
+			idx := -1
+			for j, x := range h {
+				if x.Rm && x.Key == vh.Str(a["key"]) && (!cc.hasStream() || x.Off == got.Off) {
+					idx = j
+				}
+			}
+			if idx >= 0 {
+				x := h[idx]
+				mine = []map[string]any{{"off": x.Off, "key": x.Key, "rm": true, "id": 0}}
+				log[len(log)-len(h)+idx].ID = -1 // marks "by Remove" for the monitor
+			}
+		}
+		if mine == nil {
+			mine = []map[string]any{}
+		}
+		evs = append(evs, updEv("Remove", a, got, mine))
+		return got
+	}
+	noCas := func() map[string]any { return map[string]any{"has": false, "off": 0, "ep": 0} }
 	time.Sleep(time.Until(mid(0)))
+	// C19 witness (a third of the traces): an idempotency key is saved with the shortest TTL, saved AGAIN after that TTL
+	// elapsed (early in the tick, before the result-cache cleaner wakes and pops the first save's queue item), and
+	// retried one tick later inside the second TTL: the retry has to be suppressed. Publish or Remove.
+	if rng.Intn(3) == 0 && in.Ticks >= 3 {
+		wpub := func(ittl int) {
+			npub++
+			pubEv(map[string]any{"key": "a", "km": "", "cas": noCas(), "v": 0, "ve": "", "ik": "kw", "ittl": ittl, "sc": 0, "id": npub})
+		}
+		wrem := func(ittl int) { remEv(map[string]any{"key": "a", "cas": noCas(), "ik": "kw", "ittl": ittl}) }
+		tickTo := func() {
+			now++
+			time.Sleep(time.Until(mid(now).Add(-tick / 5)))
+			evs = append(evs, map[string]any{"ev": "Tick", "now": now})
+		}
+		useRemove := cc.KTTL != 1 && rng.Intn(2) == 0
+		if useRemove {
+			npub++
+			pubEv(map[string]any{"key": "a", "km": "", "cas": noCas(), "v": 0, "ve": "", "ik": "", "ittl": 1, "sc": 0, "id": npub})
+			wrem(1) // applied: saves the result with TTL 1
+			tickTo()
+			npub++
+			pubEv(map[string]any{"key": "a", "km": "", "cas": noCas(), "v": 0, "ve": "", "ik": "", "ittl": 1, "sc": 0, "id": npub})
+			wrem(3) // first TTL elapsed: fresh, applied, saved again
+			tickTo()
+			spread()
+			wrem(3) // inside the second TTL: suppressed by idempotency
+		} else {
+			wpub(1)
+			tickTo()
+			wpub(3)
+			tickTo()
+			spread()
+			wpub(3)
+		}
+		res.Count("c19_witness_segments", 1)
+	}
 	for i := 0; i < in.Ops && !late(); i++ {
 		switch r := rng.Intn(20); {
 		case r < 4:
@@ -164,9 +239,9 @@ func oneTrace(b *centrifuge.MemoryMapBroker, rec *recorder, reg *registry, res *
 			}
 			ik := ""
 			ittl := 1
-			if rng.Intn(5) == 0 {
+			if rng.Intn(3) == 0 { // repeats inside the TTL, re-saves after it (stale cleaner items), retries
 				ik = []string{"k1", "k2"}[rng.Intn(2)]
-				ittl = 1 + rng.Intn(2)
+				ittl = 1 + rng.Intn(3)
 			}
 			sc := 0
 			if cc.Ord {
@@ -174,46 +249,17 @@ func oneTrace(b *centrifuge.MemoryMapBroker, rec *recorder, reg *registry, res *
 			}
 			a := map[string]any{"key": keys[rng.Intn(3)], "km": []string{"", "", "if_new", "if_new_refresh", "if_new_refresh", "if_exists"}[rng.Intn(6)],
 				"cas": casArg(), "v": v, "ve": ve, "ik": ik, "ittl": ittl, "sc": sc, "id": npub}
-			t0 := time.Now().UnixMilli()
-			got := doPublish(b, ch, a, ep, tick)
-			t1 := time.Now().UnixMilli()
-			h := takeBc()
-			if got.Err == "" && (got.Sup == "" || (got.Sup == "key_exists" && vh.Str(a["km"]) == "if_new_refresh")) {
-				refreshes = append(refreshes, opTime{vh.Str(a["key"]), t0, t1})
-			}
-			evs = append(evs, updEv("Publish", a, got, ownBc(h, func(x bcast) bool { return !x.Rm && x.ID == npub })))
-			time.Sleep(1200 * time.Microsecond)
+			pubEv(a)
 		case r < 13:
 			ik := ""
-			if rng.Intn(6) == 0 {
+			if rng.Intn(4) == 0 {
 				ik = []string{"k1", "k2"}[rng.Intn(2)]
 			}
-			a := map[string]any{"key": keys[rng.Intn(3)], "cas": casArg(), "ik": ik, "ittl": 1 + rng.Intn(2)}
+			a := map[string]any{"key": keys[rng.Intn(3)], "cas": casArg(), "ik": ik, "ittl": 1 + rng.Intn(3)}
 			if ik == "" {
 				a["ittl"] = 1
 			}
-			got := doRemove(b, ch, a, ep, tick)
-			h := takeBc()
-			applied := got.Err == "" && got.Sup == ""
-			var mine []map[string]any
-			if applied {
-				// the removal this call produced: by its offset on stream-backed channels, else the last removal of the key
-				idx := -1
-				for j, x := range h {
-					if x.Rm && x.Key == vh.Str(a["key"]) && (!cc.hasStream() || x.Off == got.Off) {
-						idx = j
-					}
-				}
-				if idx >= 0 {
-					x := h[idx]
-					mine = []map[string]any{{"off": x.Off, "key": x.Key, "rm": true, "id": 0}}
-					log[len(log)-len(h)+idx].ID = -1 // marks "by Remove" for the monitor
-				}
-			}
-			if mine == nil {
-				mine = []map[string]any{}
-			}
-			evs = append(evs, updEv("Remove", a, got, mine))
+			remEv(a)
 		case r < 14:
 			if rng.Intn(3) > 0 {
 				continue
